@@ -278,8 +278,7 @@ func (x Expr) Has(data any) bool {
 				switch tv := prev.(type) {
 				case map[string]any:
 					// Put prev back and slide fi.
-					stack[len(stack)-1] = prev
-					stack = append(stack, di|descentFlag)
+					stack = append(stack, prev, di|descentFlag)
 					if int(fi) == len(x)-1 { // last one
 						if 0 < len(tv) {
 							return true
@@ -304,8 +303,7 @@ func (x Expr) Has(data any) bool {
 					}
 				case []any:
 					// Put prev back and slide fi.
-					stack[len(stack)-1] = prev
-					stack = append(stack, di|descentFlag)
+					stack = append(stack, prev, di|descentFlag)
 					if int(fi) == len(x)-1 { // last one
 						if 0 < len(tv) {
 							return true
@@ -332,8 +330,7 @@ func (x Expr) Has(data any) bool {
 				case Keyed:
 					keys := tv.Keys()
 					// Put prev back and slide fi.
-					stack[len(stack)-1] = prev
-					stack = append(stack, di|descentFlag)
+					stack = append(stack, prev, di|descentFlag)
 					if int(fi) == len(x)-1 { // last one
 						if 0 < len(keys) {
 							return true
@@ -360,8 +357,7 @@ func (x Expr) Has(data any) bool {
 				case Indexed:
 					size := tv.Size()
 					// Put prev back and slide fi.
-					stack[len(stack)-1] = prev
-					stack = append(stack, di|descentFlag)
+					stack = append(stack, prev, di|descentFlag)
 					if int(fi) == len(x)-1 { // last one
 						if 0 < size {
 							return true
@@ -387,8 +383,7 @@ func (x Expr) Has(data any) bool {
 					}
 				case gen.Object:
 					// Put prev back and slide fi.
-					stack[len(stack)-1] = prev
-					stack = append(stack, di|descentFlag)
+					stack = append(stack, prev, di|descentFlag)
 					if int(fi) == len(x)-1 { // last one
 						if 0 < len(tv) {
 							return true
@@ -403,8 +398,7 @@ func (x Expr) Has(data any) bool {
 					}
 				case gen.Array:
 					// Put prev back and slide fi.
-					stack[len(stack)-1] = prev
-					stack = append(stack, di|descentFlag)
+					stack = append(stack, prev, di|descentFlag)
 					if int(fi) == len(x)-1 { // last one
 						if 0 < len(tv) {
 							return true
